@@ -565,6 +565,21 @@ func runChild(script, dir string, seed int64, prm []int) {
 		round()
 		e.upload()
 		e.restore(e.lastRemote)
+	case "backlog":
+		// several level-0 files pending when one Replica.Sync uploads them: at every instant of that batch the
+		// files visible on the replica must be a gapless prefix (seed C03d: uploads of one batch in parallel)
+		e.write(2, 100)
+		e.sync()
+		e.upload()
+		for i := 0; i < 4; i++ {
+			e.write(1+i%2, 80)
+			e.sync()
+		}
+		e.upload()
+		e.write(1, 60)
+		e.sync()
+		e.upload()
+		e.restore(e.lastRemote)
 	case "retention":
 		e.db.L0Retention = time.Nanosecond
 		for i := 0; i < rounds; i++ {
